@@ -34,6 +34,7 @@ MUT13 = GROW + KDEL + ['set_vertex', 'write', 'clear', 'clear_props', 'request',
 
 MUT13B = ['add_vertex', 'delete_vertex', 'collect_garbage', 'set_vertex', 'write', 'clear', 'h_drop', 'mesh_destroy', 'set_persistent']
 
+MUT13Q = [o for o in MUT13 if o not in ('set_name', 'h_copy', 'enable_deferred', 'pos_handle')]
 MUT13C = ['add_vertex', 'delete_vertex', 'set_vertex', 'write', 'clear', 'mesh_destroy']
 
 BASE = dict(NM=2, NS=7, NH=3, Kinds=['V'], Types=['int', 'bool'], Names=['', 'a'], MTypes=['poly'],
@@ -71,7 +72,7 @@ CHECKS = {
             # copy / assign (all pairs of up to three meshes incl. mixed kernel types and self assignment),
             # then every mutation of either side, then a second, narrower mutation
             cfg(name='copy-then-mutate', NM=3, NS=12, NH=4, Depth=3, SeedIds=[10, 11, 12, 13, 14, 15, 16], Kinds=['V'], Types=['int'], Names=['a'],
-                MTypes=['poly', 'tet', 'hex'], MaxV=5, MaxE=7, Ops1=COPY, Ops2=MUT13, OpsN=MUT13C),
+                MTypes=['poly', 'tet', 'hex'], MaxV=5, MaxE=7, Ops1=COPY, Ops2=MUT13Q, OpsN=MUT13C),
             # chains of copies
             cfg(name='chains', NM=3, NS=12, NH=4, Depth=3, SeedIds=[10, 11, 13, 14], Kinds=['V'], Types=['int'], Names=['a'],
                 MTypes=['poly'], MaxV=5, MaxE=7, Ops1=COPY + ['mesh_new'], Ops2=COPY, OpsN=MUT13B),
@@ -81,7 +82,7 @@ CHECKS = {
                 OpsN=COPY + ['set_vertex', 'add_vertex', 'mesh_destroy', 'persist_pos', 'write']),
         ],
         thorough=[
-            cfg(name='copy-then-mutate', NM=3, NS=12, NH=4, Depth=4, SeedIds=[10, 11, 12, 13, 14, 15, 16], Kinds=['V', 'HE'], Types=['int'], Names=['a'],
+            cfg(name='copy-then-mutate', NM=3, NS=12, NH=4, Depth=4, SeedIds=[10, 11, 12, 13, 14, 15, 16], Kinds=['V'], Types=['int'], Names=['a'],
                 MTypes=['poly', 'tet', 'hex'], MaxV=5, MaxE=7, Ops1=COPY, Ops2=MUT13, OpsN=MUT13C),
             cfg(name='copy-then-mutate-wide', NM=3, NS=12, NH=4, Depth=3, SeedIds=[10, 11, 12, 13, 14, 15, 16], Kinds=['V', 'HE', 'M'], Types=['int', 'bool'], Names=['a'],
                 MTypes=['poly', 'tet', 'hex'], MaxV=5, MaxE=7, Ops1=COPY, Ops2=MUT13, OpsN=MUT13),
@@ -311,7 +312,9 @@ def run_check(prop, tier, seed, replay=None):
                                        distinct=r['stats']['distinct'], emitted=len(r['transitions']), model_bad=len(r['mbad'])))
             mfind += r['mbad']
             o2, t2 = split_executions(r['orgs'], r['transitions'])
-            scripts = vlib.tree_scripts(o2, t2, '', vlib.NCPU * 2, mesh='props', stamp=False)
+            # one validator JVM per shard costs seconds of start-up: few shards for small trees
+            nsh = max(1, min(vlib.NCPU, len(t2) // 1200))
+            scripts = vlib.tree_scripts(o2, t2, '', nsh, mesh='props', stamp=False)
             if r['transitions'] and len(cov['samples']) < 4:
                 k, p = r['transitions'][len(r['transitions']) // 2]
                 cov['samples'].append(dict(config=mc['name'], seed_script=r['orgs'][k], calls=p))
@@ -331,7 +334,7 @@ def run_check(prop, tier, seed, replay=None):
             mfind += r['mbad']
             scripts = [vlib.linear_script(h['script'] + h['path'], '', mesh='props', stamp_every=True, silent_prefix=len(h['script']))
                        for h in hist]
-            nsh = vlib.NCPU
+            nsh = max(1, min(vlib.NCPU, sum(len(h['path']) for h in hist) // 600))
             shards = [''.join(scripts[i::nsh]) for i in range(nsh) if scripts[i::nsh]]
             agg = vlib.exec_and_validate(variant, shards, conf['props'], work, 'r', exe_name='props_exec', module='OVMPropsTrace.tla')
             log('%s sim: %d histories, %d lines, %d checked, %d bad, %d drift, %d crashes' %
